@@ -6,7 +6,8 @@
    View: Spec/ByteStore.v ([byte_at], [owner], [Inv]).  Addresses, lengths, layouts and
    histories are unbounded. *)
 From Coq Require Import ZArith Bool List.
-From AxV Require Import Bits Outcome Codes Iced State Rt Mem BitsP ListP ByteStore MemP.
+From AxV Require Import Bits Outcome Codes Iced State Rt Mem Trace BitsP ListP ByteStore MemP RegFile RegsP ISA OperandP RmP StoreP.
+From AxG Require Import Flags Regs Operand Helpers I_mov.
 Local Open Scope Z_scope.
 
 (* a read returns the bytes stored at those addresses and changes nothing *)
@@ -91,7 +92,36 @@ Proof.
   - vm_compute. auto.
 Qed.
 
+(* ---- through guest instructions (the regenerated MOV): a store followed by a load ---- *)
+
+(* a typed 8-byte store followed by a typed 8-byte load at the same address returns the stored
+   value (little-endian composition of C08_read_after_write), provided the area is readable *)
+Theorem C08_store_load_roundtrip : forall a v s s',
+  Inv (mem s) -> 0 <= v < 2 ^ 64 ->
+  store 8 a v s = Some s' -> (exists d, load 8 a s = Some d) -> load 8 a s' = Some v.
+Proof. exact store_load_roundtrip. Qed.
+
+(* after a successful guest MOV [m], r64 the eight bytes at the operand's address read back as the
+   source register - for every addressing mode, address, register value and memory layout *)
+Theorem C08_guest_store_then_load : forall c i s s',
+  wf_regs s -> Inv (mem s) -> i_op_count i = 2 -> i_op_kind i 0 = OK_Memory -> wf_mem_instr i ->
+  i_op_kind i 1 = OK_Register -> is_gpr64 (i_op_register i 1) = true ->
+  i_code i = C_Mov_rm64_r64 -> instr_mov_rm64_r64 c i s = (Ok tt, s') ->
+  load 8 (ea i s) s' = Some (rf_read (regs s) (i_op_register i 1)).
+Proof. exact mov_store_then_load. Qed.
+
+(* a guest load of any r/m64 source returns what the byte store holds, or fails without a change *)
+Theorem C08_guest_load : forall c i s k,
+  wf_regs s -> Inv (mem s) -> 0 <= k < i_op_count i -> rm64_shape i k ->
+  match read_op i k 64 s with
+  | Some d => read_rm64 c i k s = (Ok d, s) /\ 0 <= d < 2 ^ 64
+  | None => exists e, read_rm64 c i k s = (Err e, s)
+  end.
+Proof. exact read_rm64_spec. Qed.
+
 Print Assumptions C08_write_effect.
 Print Assumptions C08_read_value.
 Print Assumptions C08_read_total.
 Print Assumptions C08_history.
+Print Assumptions C08_store_load_roundtrip.
+Print Assumptions C08_guest_store_then_load.
